@@ -768,8 +768,15 @@ Proof.
   destruct (validated_join_confined (base_dir i) (b_rel b) NB V) as (C1 & C2).
   unfold begin_ops, ops_confined. apply Forall_app. split.
   - repeat constructor; cbn [snd]; eapply confined_trans; eassumption.
-  - destruct (uses_sidecar i b it); [|constructor].
-    apply sidecar_ops_confined; [exact R|apply sidecar_identifier_noslash; exact IDOK].
+  - apply Forall_app. split.
+    + (* the metadata files a receive without resume removes are among those of [sidecar_ops] *)
+      unfold plain_meta_ops. destruct (negb (r_resume i) && negb (is_empty (it_id it))); [|constructor].
+      pose proof (sidecar_ops_confined i (sidecar_identifier it) R (sidecar_identifier_noslash it IDOK)) as SC.
+      unfold ops_confined in SC. rewrite Forall_forall in SC. apply Forall_forall. intros x Hx.
+      apply in_map_iff in Hx. destruct Hx as (d & <- & Hd). apply SC.
+      unfold sidecar_ops. apply in_flat_map. exists d. split; [exact Hd|]. left. reflexivity.
+    + destruct (uses_sidecar i b it); [|constructor].
+      apply sidecar_ops_confined; [exact R|apply sidecar_identifier_noslash; exact IDOK].
 Qed.
 
 Lemma begins_ops_confined i : manifest_ok (r_root i) (r_items i) = true ->
